@@ -25,7 +25,7 @@ BV == {0, 2}
 \*  that invariant and only the "never lowers" clause is claimed for them)
 BumpCases == {[k |-> "Bump", b |-> <<b1, 1>>, f |-> <<f1, 0>>, inc |-> <<i1, 3>>, maxB |-> <<mb, 2>>, maxF |-> <<mf, 1>>,
                avail |-> <<av, 4>>, dom |-> (b1 <= mb /\ f1 <= mf)] :
-               b1 \in BV, f1 \in BV, i1 \in {0, 1, 5}, mb \in {0, 2, 3}, mf \in {0, 2, 3}, av \in {0, 3, 9}}
+               b1 \in BV, f1 \in BV, i1 \in {0, 1, 2, 5}, mb \in {0, 2, 3}, mf \in {0, 2, 3}, av \in {0, 3, 5, 9}}
 
 Init == c \in FillCases \cup RetimeCases \cup BumpCases
 Next == PrintT(ToJson(c)) /\ c' = [k |-> "done"]
